@@ -27,6 +27,8 @@ type PartialFamily struct {
 	Collect  string // when set, violations of this property are collected instead of Prop's
 	Base     uint64 // > 0: started with NewMapPollardFromRoots on an accumulator of Base opaque leaves (TotalRows 63)
 	UndoAs   string // when set, states reached through an Undo report their clauses under this property (C06)
+	FullFR   bool   // the "fromroots" transition creates a FULL map forest (NewMapPollardFromRoots(..., true)); the
+	// block transitions then remember every addition and the "stores nothing beyond" clause is dropped
 }
 
 type partFrame struct {
@@ -42,6 +44,7 @@ type partModel struct {
 	undoBud int
 	frBud   int
 	hasUndo bool
+	fullNow bool // the instance is a full forest started from bare roots
 }
 
 func (m *partModel) AbstractKey() string { return m.s.Key() + "/" + boolKey(m.must) }
@@ -110,6 +113,9 @@ func (f *PartialFamily) Ops(n *Node) []Op {
 		}
 	}
 	for _, set := range limitSets(subsets(cached, false), f.SetLimit) {
+		if md.fullNow {
+			break // Prune is documented as a no-op on a full forest
+		}
 		ops = append(ops, Op{Kind: "prune", Set: set})
 	}
 	if md.undoBud > 0 && len(md.stack) > 0 {
@@ -169,7 +175,7 @@ func (f *PartialFamily) run(x *Exec, hist []Op) (*u.MapPollard, *partModel, bool
 				nm[d] = false
 			}
 			for i := 0; i < op.Adds; i++ {
-				nm = append(nm, remSet[i])
+				nm = append(nm, remSet[i] || md.fullNow)
 			}
 			md.must = nm
 			md.s = md.s.Apply(op.Dels, op.Adds)
@@ -219,7 +225,8 @@ func (f *PartialFamily) run(x *Exec, hist []Op) (*u.MapPollard, *partModel, bool
 			md.undoBud--
 			md.hasUndo = true
 		case "fromroots":
-			nm := u.NewMapPollardFromRoots(append([]Hash(nil), L.Roots...), md.s.Total(), false)
+			nm := u.NewMapPollardFromRoots(append([]Hash(nil), L.Roots...), md.s.Total(), f.FullFR)
+			md.fullNow = f.FullFR
 			m = &nm
 			md.must = make([]bool, md.s.N())
 			md.stack = nil // the new instance never saw the earlier blocks
@@ -334,7 +341,7 @@ func checkPartial(x *Exec, prop string, m *u.MapPollard, md *partModel, lastOp O
 		case want != e.l.Hash:
 			x.Report(prop, "partial forest stores a false hash", fmt.Sprintf("pos %d: want %x got %x after %s", e.p, want[:4], e.l.Hash[:4], lastOp.String()))
 			bad = true
-		case !allowed[e.p]:
+		case !allowed[e.p] && !md.fullNow:
 			x.Report(prop, "partial forest stores a position that no remembered leaf needs", fmt.Sprintf("pos %d after %s (cached %v)", e.p, lastOp.String(), sortedKeys(obs)))
 		}
 	}
